@@ -42,10 +42,11 @@ Proof.
 Qed.
 Print Assumptions C12_out_never.
 
-(** Conversely such a packet does leave (the one-hop fast path has no further condition: no
-    expiry check, no link-state check). *)
+(** Conversely such a packet does leave when its PayloadLen is consistent (the one-hop fast
+    path has no further condition: no expiry check, no link-state check). *)
 Theorem C12_out_exact : forall mac c ing p i h1 h2 f,
   from0 ing = true -> ohp_shape p = Some (i, h1, h2) -> i_consdir i = true ->
+  p_pay_len p = p_pay_actual p ->
   p_src_ia p = c_ia c -> nbr_of c (h_eg h1) = p_dst_ia p -> p_dst_ia p <> 0 ->
   mac_valid mac i h1 -> get_if c (h_eg h1) = Some f ->
   process_ohp (total mac) c ing p = Forward (h_eg h1) (out_pkt p i h1 h2) None.
@@ -201,12 +202,13 @@ Print Assumptions C12_bfd_and_slack_not_forwarded.
     [ifid] by [process_ohp] itself. *)
 Theorem C12_bfd_packet : forall mac c ing ifid now_s p i h1 h2 f,
   bfd_path (total mac) ifid now_s = Some (i, h1, h2) ->
-  from0 ing = true -> p_src_ia p = c_ia c -> nbr_of c ifid = p_dst_ia p -> p_dst_ia p <> 0 ->
+  from0 ing = true -> p_pay_len p = p_pay_actual p ->
+  p_src_ia p = c_ia c -> nbr_of c ifid = p_dst_ia p -> p_dst_ia p <> 0 ->
   get_if c ifid = Some f ->
   bfd_ok (total mac) c ifid (p_dst_ia p) (with_path p i h1 h2) = true /\
   exists out, process_ohp (total mac) c ing (with_path p i h1 h2) = Forward ifid out None.
 Proof.
-  intros mac c ing ifid now_s p i h1 h2 f B F Hs Hn Hz Hg. split.
+  intros mac c ing ifid now_s p i h1 h2 f B F Hl Hs Hn Hz Hg. split.
   - eapply bfd_path_ok; eauto.
   - unfold bfd_path, mac_of, total in B. injection B as <- <- <-.
     eexists.
